@@ -335,6 +335,8 @@ fn valid_file(target: Target, machine: Machine, seed: u64) -> Vec<u8> {
                 cycles: (rnd() % 60000) as u32,
                 ay: Some((3, [7; 16])),
                 mouse: Some(true),
+                f_set: false,
+                scf_first: false,
             };
             let enc = if target == Target::Sna { c14::Enc::Sna } else if rnd() & 1 == 0 { c14::Enc::SzxZlib } else { c14::Enc::SzxFancy };
             c14::encode(&st, enc, rnd())
